@@ -38,10 +38,12 @@ def notMarker : Item → Bool
 @[simp] theorem tasksOf_nil : tasksOf [] = [] := rfl
 @[simp] theorem tasksOf_append (a b : List Item) : tasksOf (a ++ b) = tasksOf a ++ tasksOf b := by
   simp [tasksOf]
-@[simp] theorem tasksOf_cons_task (t : Task) (l : List Item) : tasksOf (.task t :: l) = t :: tasksOf l := by
-  simp [tasksOf]
-@[simp] theorem tasksOf_cons_marker (l : List Item) : tasksOf (.marker :: l) = tasksOf l := by
-  simp [tasksOf]
+@[simp] theorem tasksOf_cons_task (t : Task) (l : List Item) : tasksOf (.task t :: l) = t :: tasksOf l := rfl
+@[simp] theorem tasksOf_cons_marker (l : List Item) : tasksOf (.marker :: l) = tasksOf l := rfl
+@[simp] theorem takeWhile_notMarker_cons_task (t : Task) (l : List Item) :
+    (Item.task t :: l).takeWhile notMarker = .task t :: l.takeWhile notMarker := rfl
+@[simp] theorem takeWhile_notMarker_cons_marker (l : List Item) :
+    (Item.marker :: l).takeWhile notMarker = [] := rfl
 
 theorem mem_tasksOf {t : Task} {l : List Item} : t ∈ tasksOf l ↔ Item.task t ∈ l := by
   induction l with
@@ -115,18 +117,519 @@ theorem take_drop_map_fst (cells : List (Item × Bool)) (n : Nat) :
 /-! ### frame facts about single steps -/
 
 theorem popCells_allItems (s : State) (n : Nat) : (popCells s n).allItems = s.allItems := by
-  simp [popCells, State.allItems, List.append_assoc, take_drop_map_fst]
+  simp [popCells, State.allItems, List.append_assoc]
+
+theorem popCells_allItems' (s : State) (n : Nat) (pc : CPc) :
+    ({ popCells s n with cpc := pc } : State).allItems = s.allItems := popCells_allItems s n
 
 /-- the sequence of tickets only grows at its end -/
 theorem step_allItems {c : Cfg} {s s' : State} {l : Lbl} (h : step c s l = some s') :
     ∃ ext, s'.allItems = s.allItems ++ ext := by
-  cases l <;> simp only [step] at h <;> (repeat' split at h) <;>
+  cases l with
+  | reserve id =>
+    simp only [step, stepWith] at h
+    split at h <;> try contradiction
+    injection h with h; subst h
+    exact ⟨[_], by simp [State.allItems]; rfl⟩
+  | stopReserve =>
+    simp only [step, stepWith] at h
+    split at h <;> try contradiction
+    injection h with h; subst h
+    exact ⟨[.marker], by simp [State.allItems]⟩
+  | _ =>
+    simp only [step, stepWith] at h <;> (repeat' split at h) <;>
     first
     | contradiction
     | (injection h with h; subst h
        first
-       | exact ⟨[], by simp [State.allItems, map_fst_setPublished, popCells_allItems]⟩
-       | exact ⟨[], by simp [popCells_allItems]; simp [State.allItems, popCells]⟩
-       | exact ⟨_, by simp [State.allItems]; rfl⟩)
+       | (refine ⟨[], ?_⟩; simp [State.allItems, map_fst_setPublished]; done)
+       | (refine ⟨[], ?_⟩; rw [List.append_nil]; first | exact popCells_allItems' _ _ _ | exact popCells_allItems _ _))
+
+/-! ### the queue-structure invariant -/
+
+@[simp] theorem upd_same {α : Type} (f : Nat → α) (i : Nat) (v : α) : upd f i v i = v := by simp [upd]
+theorem upd_other {α : Type} (f : Nat → α) {i j : Nat} (v : α) (h : j ≠ i) : upd f i v j = f j := by simp [upd, h]
+
+structure QInv (c : Cfg) (s : State) : Prop where
+  popLen : s.popped.length = s.popIdx
+  cellLen : s.popIdx + s.cells.length = s.pushIdx
+  /-- a retire call waiting to publish owns an unpublished cell that has not been popped -/
+  pub : ∀ id e k, s.calls id = .publish e k → s.popIdx ≤ k ∧ s.cells[k - s.popIdx]? = some (.task ⟨id, e⟩, false)
+  spub : ∀ k, s.stop = .publish k → s.popIdx ≤ k ∧ s.cells[k - s.popIdx]? = some (.marker, false)
+  /-- ticket `k` of a call is element `k` of the ticket sequence -/
+  tick : ∀ id e k, (s.calls id = .publish e k ∨ s.calls id = .done e k) → s.allItems[k]? = some (.task ⟨id, e⟩)
+  /-- published cells lie within one capacity of the pop index: at most `cap` published items -/
+  room : ∀ i x, s.cells[i]? = some (x, true) → i < c.cap
+
+theorem allItems_length {c : Cfg} {s : State} (h : QInv c s) : s.allItems.length = s.pushIdx := by
+  simp [State.allItems, h.popLen, h.cellLen]
+
+theorem QInv.init (c : Cfg) : QInv c State.init := by
+  constructor <;> simp [State.init, State.allItems]
+
+theorem getElem?_setPublished (cells : List (Item × Bool)) (i j : Nat) :
+    (setPublished cells i)[j]? = (cells[j]?).map (fun c => if i = j then (c.1, true) else c) := by
+  unfold setPublished
+  rw [List.getElem?_modify]
+  cases cells[j]? <;> simp
+
+theorem QInv.popCells {c : Cfg} {s : State} (hq : QInv c s) {n lim : Nat} (hp : canPop s n lim = true) (pc : CPc) :
+    QInv c { popCells s n with cpc := pc } := by
+  simp only [canPop, Bool.and_eq_true, decide_eq_true_eq, List.all_eq_true] at hp
+  obtain ⟨⟨_, hn⟩, hall⟩ := hp
+  have hpubd : ∀ j x b, s.cells[j]? = some (x, b) → j < n → b = true := by
+    intro j x b hj hjn
+    have : (x, b) ∈ s.cells.take n := by
+      rw [List.mem_take_iff_getElem]
+      have hjl : j < s.cells.length := by
+        rcases Nat.lt_or_ge j s.cells.length with h | h
+        · exact h
+        · rw [List.getElem?_eq_none h] at hj; cases hj
+      refine ⟨j, by omega, ?_⟩
+      rw [List.getElem?_eq_getElem hjl] at hj
+      exact Option.some.inj hj
+    exact hall _ this
+  constructor
+  · simp [GC.popCells, hq.popLen]; omega
+  · simp [GC.popCells]; have := hq.cellLen; omega
+  · intro id e k hk
+    have ⟨h1, h2⟩ := hq.pub id e k hk
+    have hge : n ≤ k - s.popIdx := by
+      rcases Nat.lt_or_ge (k - s.popIdx) n with h | h
+      · have := hpubd _ _ _ h2 h; cases this
+      · exact h
+    refine ⟨by simp [GC.popCells]; omega, ?_⟩
+    simp only [GC.popCells, List.getElem?_drop]
+    rw [← h2]; congr 1; omega
+  · intro k hk
+    have ⟨h1, h2⟩ := hq.spub k hk
+    have hge : n ≤ k - s.popIdx := by
+      rcases Nat.lt_or_ge (k - s.popIdx) n with h | h
+      · have := hpubd _ _ _ h2 h; cases this
+      · exact h
+    refine ⟨by simp [GC.popCells]; omega, ?_⟩
+    simp only [GC.popCells, List.getElem?_drop]
+    rw [← h2]; congr 1; omega
+  · intro id e k hk
+    rw [popCells_allItems']
+    exact hq.tick id e k hk
+  · intro i x hi
+    simp only [GC.popCells, List.getElem?_drop] at hi
+    have := hq.room _ _ hi
+    omega
+
+theorem QInv.step {c : Cfg} {s s' : State} {l : Lbl} (hq : QInv c s) (h : step c s l = some s') : QInv c s' := by
+  cases l with
+  | callRetire id =>
+    simp only [GC.step, stepWith] at h
+    split at h <;> try contradiction
+    rename_i hnone
+    injection h with h; subst h
+    refine ⟨hq.popLen, hq.cellLen, ?_, hq.spub, ?_, hq.room⟩
+    · intro j e k hj
+      dsimp only at hj ⊢
+      by_cases hji : j = id
+      · subst hji; simp at hj
+      · rw [upd_other _ _ hji] at hj; exact hq.pub j e k hj
+    · intro j e k hj
+      dsimp only at hj ⊢
+      by_cases hji : j = id
+      · subst hji; simp at hj
+      · rw [upd_other _ _ hji] at hj; exact hq.tick j e k hj
+  | callRetireAt id e0 =>
+    simp only [GC.step, stepWith] at h
+    split at h <;> try contradiction
+    injection h with h; subst h
+    refine ⟨hq.popLen, hq.cellLen, ?_, hq.spub, ?_, hq.room⟩
+    · intro j e k hj
+      dsimp only at hj ⊢
+      by_cases hji : j = id
+      · subst hji; simp at hj
+      · rw [upd_other _ _ hji] at hj; exact hq.pub j e k hj
+    · intro j e k hj
+      dsimp only at hj ⊢
+      by_cases hji : j = id
+      · subst hji; simp at hj
+      · rw [upd_other _ _ hji] at hj; exact hq.tick j e k hj
+  | tick id =>
+    simp only [GC.step, stepWith] at h
+    split at h <;> try contradiction
+    injection h with h; subst h
+    refine ⟨hq.popLen, hq.cellLen, ?_, hq.spub, ?_, hq.room⟩
+    · intro j e k hj
+      dsimp only at hj ⊢
+      by_cases hji : j = id
+      · subst hji; simp at hj
+      · rw [upd_other _ _ hji] at hj; exact hq.pub j e k hj
+    · intro j e k hj
+      dsimp only at hj ⊢
+      by_cases hji : j = id
+      · subst hji; simp at hj
+      · rw [upd_other _ _ hji] at hj; exact hq.tick j e k hj
+  | reserve id =>
+    simp only [GC.step, stepWith] at h
+    split at h <;> try contradiction
+    rename_i e0 hres
+    injection h with h; subst h
+    have hlen := allItems_length hq
+    refine ⟨hq.popLen, by simp; have := hq.cellLen; omega, ?_, ?_, ?_, ?_⟩
+    · intro j e k hj
+      dsimp only at hj ⊢
+      by_cases hji : j = id
+      · subst hji
+        simp at hj
+        obtain ⟨rfl, rfl⟩ := hj
+        have := hq.cellLen
+        refine ⟨by omega, ?_⟩
+        have : s.pushIdx - s.popIdx = s.cells.length := by omega
+        simp [this]
+      · rw [upd_other _ _ hji] at hj
+        have ⟨h1, h2⟩ := hq.pub j e k hj
+        refine ⟨h1, ?_⟩
+        have hlt : k - s.popIdx < s.cells.length := by
+          rcases Nat.lt_or_ge (k - s.popIdx) s.cells.length with h | h
+          · exact h
+          · rw [List.getElem?_eq_none h] at h2; cases h2
+        rw [List.getElem?_append_left hlt]; exact h2
+    · intro k hk
+      dsimp only at hk ⊢
+      have ⟨h1, h2⟩ := hq.spub k hk
+      refine ⟨h1, ?_⟩
+      have hlt : k - s.popIdx < s.cells.length := by
+        rcases Nat.lt_or_ge (k - s.popIdx) s.cells.length with h | h
+        · exact h
+        · rw [List.getElem?_eq_none h] at h2; cases h2
+      rw [List.getElem?_append_left hlt]; exact h2
+    · intro j e k hj
+      dsimp only at hj ⊢
+      by_cases hji : j = id
+      · subst hji
+        simp at hj
+        obtain ⟨rfl, rfl⟩ := hj
+        simp only [State.allItems, List.map_append, List.map_cons, List.map_nil]
+        rw [← List.append_assoc]
+        have : (s.popped ++ List.map (fun x => x.fst) s.cells).length = s.pushIdx := hlen
+        rw [List.getElem?_append_right (by omega)]
+        simp [this]
+      · rw [upd_other _ _ hji] at hj
+        have := hq.tick j e k hj
+        have hlt : k < s.allItems.length := by
+          rcases Nat.lt_or_ge k s.allItems.length with h | h
+          · exact h
+          · rw [List.getElem?_eq_none h] at this; cases this
+        simp only [State.allItems, List.map_append, List.map_cons, List.map_nil]
+        rw [← List.append_assoc]
+        show (s.allItems ++ _)[k]? = _
+        rw [List.getElem?_append_left hlt]; exact this
+    · intro i x hi
+      dsimp only at hi
+      rcases Nat.lt_or_ge i s.cells.length with hl | hl
+      · rw [List.getElem?_append_left hl] at hi; exact hq.room i x hi
+      · rw [List.getElem?_append_right hl] at hi
+        rcases Nat.eq_zero_or_pos (i - s.cells.length) with h0 | h0
+        · rw [h0] at hi; simp at hi
+        · obtain ⟨m, hm⟩ := Nat.exists_eq_succ_of_ne_zero (Nat.pos_iff_ne_zero.mp h0)
+          rw [hm] at hi; simp at hi
+  | publish id =>
+    simp only [GC.step, stepWith] at h
+    split at h <;> try contradiction
+    rename_i e0 k0 hpub
+    split at h <;> try contradiction
+    rename_i hroom
+    injection h with h; subst h
+    have ⟨hk1, hk2⟩ := hq.pub id e0 k0 hpub
+    refine ⟨hq.popLen, by simp [setPublished]; exact hq.cellLen, ?_, ?_, ?_, ?_⟩
+    · intro j e k hj
+      dsimp only at hj ⊢
+      by_cases hji : j = id
+      · subst hji; simp at hj
+      · rw [upd_other _ _ hji] at hj
+        have ⟨h1, h2⟩ := hq.pub j e k hj
+        refine ⟨h1, ?_⟩
+        rw [getElem?_setPublished, h2]
+        have : k0 - s.popIdx ≠ k - s.popIdx := by
+          intro heq
+          rw [heq, h2] at hk2
+          injection hk2 with hk2; injection hk2 with hk2; injection hk2 with hk2
+          injection hk2 with h3 h4; exact hji h3
+        simp [this]
+    · intro k hk
+      dsimp only at hk ⊢
+      have ⟨h1, h2⟩ := hq.spub k hk
+      refine ⟨h1, ?_⟩
+      rw [getElem?_setPublished, h2]
+      have : k0 - s.popIdx ≠ k - s.popIdx := by
+        intro heq
+        rw [heq, h2] at hk2
+        injection hk2 with hk2; injection hk2 with hk2; cases hk2
+      simp [this]
+    · intro j e k hj
+      dsimp only at hj
+      have hall : ({ s with cells := setPublished s.cells (k0 - s.popIdx), calls := upd s.calls id (Call.done e0 k0) } : State).allItems = s.allItems := by
+        simp [State.allItems, map_fst_setPublished]
+      rw [hall]
+      by_cases hji : j = id
+      · subst hji
+        simp at hj
+        obtain ⟨rfl, rfl⟩ := hj
+        exact hq.tick j _ _ (Or.inl hpub)
+      · rw [upd_other _ _ hji] at hj; exact hq.tick j e k hj
+    · intro i x hi
+      dsimp only at hi
+      rw [getElem?_setPublished] at hi
+      cases hc : s.cells[i]? with
+      | none => rw [hc] at hi; cases hi
+      | some cl =>
+        rw [hc] at hi
+        simp only [Option.map_some, Option.some.injEq] at hi
+        split at hi
+        · omega
+        · subst hi; exact hq.room i x hc
+  | stopReserve =>
+    simp only [GC.step, stepWith] at h
+    split at h <;> try contradiction
+    rename_i hres
+    injection h with h; subst h
+    have hlen := allItems_length hq
+    refine ⟨hq.popLen, by simp; have := hq.cellLen; omega, ?_, ?_, ?_, ?_⟩
+    · intro j e k hj
+      dsimp only at hj ⊢
+      have ⟨h1, h2⟩ := hq.pub j e k hj
+      refine ⟨h1, ?_⟩
+      have hlt : k - s.popIdx < s.cells.length := by
+        rcases Nat.lt_or_ge (k - s.popIdx) s.cells.length with h | h
+        · exact h
+        · rw [List.getElem?_eq_none h] at h2; cases h2
+      rw [List.getElem?_append_left hlt]; exact h2
+    · intro k hk
+      dsimp only at hk ⊢
+      injection hk with hk; subst hk
+      have := hq.cellLen
+      refine ⟨by omega, ?_⟩
+      have : s.pushIdx - s.popIdx = s.cells.length := by omega
+      simp [this]
+    · intro j e k hj
+      dsimp only at hj
+      have := hq.tick j e k hj
+      have hlt : k < s.allItems.length := by
+        rcases Nat.lt_or_ge k s.allItems.length with h | h
+        · exact h
+        · rw [List.getElem?_eq_none h] at this; cases this
+      simp only [State.allItems, List.map_append, List.map_cons, List.map_nil]
+      rw [← List.append_assoc]
+      show (s.allItems ++ _)[k]? = _
+      rw [List.getElem?_append_left hlt]; exact this
+    · intro i x hi
+      dsimp only at hi
+      rcases Nat.lt_or_ge i s.cells.length with hl | hl
+      · rw [List.getElem?_append_left hl] at hi; exact hq.room i x hi
+      · rw [List.getElem?_append_right hl] at hi
+        rcases Nat.eq_zero_or_pos (i - s.cells.length) with h0 | h0
+        · rw [h0] at hi; simp at hi
+        · obtain ⟨m, hm⟩ := Nat.exists_eq_succ_of_ne_zero (Nat.pos_iff_ne_zero.mp h0)
+          rw [hm] at hi; simp at hi
+  | stopPublish =>
+    simp only [GC.step, stepWith] at h
+    split at h <;> try contradiction
+    rename_i k0 hpub
+    split at h <;> try contradiction
+    rename_i hroom
+    injection h with h; subst h
+    have ⟨hk1, hk2⟩ := hq.spub k0 hpub
+    refine ⟨hq.popLen, by simp [setPublished]; exact hq.cellLen, ?_, ?_, ?_, ?_⟩
+    · intro j e k hj
+      dsimp only at hj ⊢
+      have ⟨h1, h2⟩ := hq.pub j e k hj
+      refine ⟨h1, ?_⟩
+      rw [getElem?_setPublished, h2]
+      have : k0 - s.popIdx ≠ k - s.popIdx := by
+        intro heq
+        rw [heq, h2] at hk2
+        injection hk2 with hk2; injection hk2 with hk2; cases hk2
+      simp [this]
+    · intro k hk
+      cases hk
+    · intro j e k hj
+      dsimp only at hj
+      have hall : ({ s with cells := setPublished s.cells (k0 - s.popIdx), stop := StopPc.join } : State).allItems = s.allItems := by
+        simp [State.allItems, map_fst_setPublished]
+      rw [hall]
+      exact hq.tick j e k hj
+    · intro i x hi
+      dsimp only at hi
+      rw [getElem?_setPublished] at hi
+      cases hc : s.cells[i]? with
+      | none => rw [hc] at hi; cases hi
+      | some cl =>
+        rw [hc] at hi
+        simp only [Option.map_some, Option.some.injEq] at hi
+        split at hi
+        · omega
+        · subst hi; exact hq.room i x hc
+  | pop n =>
+    simp only [GC.step, stepWith] at h
+    split at h <;> try contradiction
+    · split at h <;> try contradiction
+      rename_i hp
+      injection h with h; subst h
+      exact hq.popCells hp _
+    · split at h <;> try contradiction
+      rename_i hp
+      injection h with h; subst h
+      exact hq.popCells hp _
+  | callStop =>
+    simp only [GC.step, stepWith] at h
+    split at h <;> try contradiction
+    rename_i hidle
+    injection h with h; subst h
+    refine ⟨hq.popLen, hq.cellLen, hq.pub, ?_, hq.tick, hq.room⟩
+    intro k hk; cases hk
+  | stopJoin =>
+    simp only [GC.step, stepWith] at h
+    split at h <;> try contradiction
+    injection h with h; subst h
+    refine ⟨hq.popLen, hq.cellLen, hq.pub, ?_, hq.tick, hq.room⟩
+    intro k hk; cases hk
+  | _ =>
+    simp only [GC.step, stepWith] at h <;> (repeat' split at h) <;>
+    first
+    | contradiction
+    | (injection h with h; subst h; exact ⟨hq.popLen, hq.cellLen, hq.pub, hq.spub, hq.tick, hq.room⟩)
+
+/-! ### conservation: every ticketed task is in exactly one place -/
+
+def taskIds (l : List Item) : List Nat := (tasksOf l).map (·.id)
+
+@[simp] theorem taskIds_append (a b : List Item) : taskIds (a ++ b) = taskIds a ++ taskIds b := by
+  simp [taskIds]
+
+def Call.ticketed : Call → Bool
+  | .publish _ _ => true
+  | .done _ _ => true
+  | _ => false
+
+structure CInv (s : State) : Prop where
+  nodup : (taskIds s.allItems).Nodup
+  has : ∀ id, id ∈ taskIds s.allItems ↔ (s.calls id).ticketed = true
+
+theorem CInv.init : CInv State.init := by
+  constructor <;> simp [State.init, State.allItems, taskIds, Call.ticketed]
+
+theorem CInv.step {c : Cfg} {s s' : State} {l : Lbl} (hc : CInv s) (h : step c s l = some s') : CInv s' := by
+  cases l with
+  | callRetire id =>
+    simp only [GC.step, stepWith] at h
+    split at h <;> try contradiction
+    rename_i hnone
+    injection h with h; subst h
+    refine ⟨hc.nodup, ?_⟩
+    intro j
+    show j ∈ taskIds s.allItems ↔ (upd s.calls id Call.tick j).ticketed = true
+    by_cases hji : j = id
+    · subst hji; rw [hc.has, hnone]; simp [Call.ticketed]
+    · rw [upd_other _ _ hji]; exact hc.has j
+  | callRetireAt id e0 =>
+    simp only [GC.step, stepWith] at h
+    split at h <;> try contradiction
+    rename_i hnone
+    injection h with h; subst h
+    refine ⟨hc.nodup, ?_⟩
+    intro j
+    show j ∈ taskIds s.allItems ↔ (upd s.calls id (Call.reserve e0) j).ticketed = true
+    by_cases hji : j = id
+    · subst hji; rw [hc.has, hnone.1]; simp [Call.ticketed]
+    · rw [upd_other _ _ hji]; exact hc.has j
+  | tick id =>
+    simp only [GC.step, stepWith] at h
+    split at h <;> try contradiction
+    rename_i htick
+    injection h with h; subst h
+    refine ⟨hc.nodup, ?_⟩
+    intro j
+    show j ∈ taskIds s.allItems ↔ (upd s.calls id _ j).ticketed = true
+    by_cases hji : j = id
+    · subst hji; rw [hc.has, htick]; simp [Call.ticketed]
+    · rw [upd_other _ _ hji]; exact hc.has j
+  | reserve id =>
+    simp only [GC.step, stepWith] at h
+    split at h <;> try contradiction
+    rename_i e0 hres
+    injection h with h; subst h
+    have hnot : id ∉ taskIds s.allItems := by
+      rw [hc.has, hres]; simp [Call.ticketed]
+    have hall : ({ s with pushIdx := s.pushIdx + 1, cells := s.cells ++ [(Item.task ⟨id, e0⟩, false)],
+                          calls := upd s.calls id (Call.publish e0 s.pushIdx) } : State).allItems
+                = s.allItems ++ [Item.task ⟨id, e0⟩] := by
+      simp [State.allItems]
+    constructor
+    · rw [hall]
+      simp only [taskIds_append]
+      rw [List.nodup_append]
+      refine ⟨hc.nodup, by simp [taskIds], ?_⟩
+      intro a ha b hb
+      simp [taskIds] at hb
+      subst hb
+      intro hab; subst hab; exact hnot ha
+    · intro j
+      rw [hall]
+      show j ∈ taskIds (s.allItems ++ _) ↔ (upd s.calls id _ j).ticketed = true
+      by_cases hji : j = id
+      · subst hji; simp [taskIds, Call.ticketed]
+      · rw [upd_other _ _ hji, ← hc.has j]
+        simp [taskIds, hji]
+  | publish id =>
+    simp only [GC.step, stepWith] at h
+    split at h <;> try contradiction
+    rename_i e0 k0 hpub
+    split at h <;> try contradiction
+    injection h with h; subst h
+    have hall : ({ s with cells := setPublished s.cells (k0 - s.popIdx), calls := upd s.calls id (Call.done e0 k0) } : State).allItems = s.allItems := by
+      simp [State.allItems, map_fst_setPublished]
+    constructor
+    · rw [hall]; exact hc.nodup
+    · intro j
+      rw [hall]
+      show j ∈ taskIds s.allItems ↔ (upd s.calls id _ j).ticketed = true
+      by_cases hji : j = id
+      · subst hji; rw [hc.has, hpub]; simp [Call.ticketed]
+      · rw [upd_other _ _ hji]; exact hc.has j
+  | stopReserve =>
+    simp only [GC.step, stepWith] at h
+    split at h <;> try contradiction
+    injection h with h; subst h
+    have e : taskIds (s.popped ++ (s.cells ++ [(Item.marker, false)]).map (·.1)) = taskIds s.allItems := by
+      simp [State.allItems, taskIds]
+    refine ⟨?_, fun j => ?_⟩
+    · show (taskIds (s.popped ++ (s.cells ++ [(Item.marker, false)]).map (·.1))).Nodup
+      rw [e]; exact hc.nodup
+    · show j ∈ taskIds (s.popped ++ (s.cells ++ [(Item.marker, false)]).map (·.1)) ↔ _
+      rw [e]; exact hc.has j
+  | stopPublish =>
+    simp only [GC.step, stepWith] at h
+    split at h <;> try contradiction
+    rename_i k0 hpub
+    split at h <;> try contradiction
+    injection h with h; subst h
+    have e : s.popped ++ (setPublished s.cells (k0 - s.popIdx)).map (·.1) = s.allItems := by
+      simp [State.allItems, map_fst_setPublished]
+    refine ⟨?_, fun j => ?_⟩
+    · show (taskIds (s.popped ++ (setPublished s.cells (k0 - s.popIdx)).map (·.1))).Nodup
+      rw [e]; exact hc.nodup
+    · show j ∈ taskIds (s.popped ++ (setPublished s.cells (k0 - s.popIdx)).map (·.1)) ↔ _
+      rw [e]; exact hc.has j
+  | pop n =>
+    simp only [GC.step, stepWith] at h
+    split at h <;> try contradiction
+    · split at h <;> try contradiction
+      injection h with h; subst h
+      exact ⟨by rw [popCells_allItems']; exact hc.nodup, fun j => by rw [popCells_allItems']; exact hc.has j⟩
+    · split at h <;> try contradiction
+      injection h with h; subst h
+      exact ⟨by rw [popCells_allItems']; exact hc.nodup, fun j => by rw [popCells_allItems']; exact hc.has j⟩
+  | _ =>
+    simp only [GC.step, stepWith] at h <;> (repeat' split at h) <;>
+    first
+    | contradiction
+    | (injection h with h; subst h; exact ⟨hc.nodup, hc.has⟩)
 
 end Babylon.GC
